@@ -6,6 +6,7 @@ pub mod c05;
 pub mod c05e;
 pub mod c06;
 pub mod c07;
+pub mod c08;
 pub mod c09;
 pub mod c09e;
 pub mod c10;
@@ -41,6 +42,7 @@ pub fn dispatch(prop: &str, ctx: &Ctx, rep: &mut Report) -> bool {
         "C05" => c05::run(ctx, rep),
         "C06" => c06::run(ctx, rep),
         "C07" => c07::run(ctx, rep),
+        "C08" => c08::run(ctx, rep),
         "C09" => c09::run(ctx, rep),
         "C10" => c10::run(ctx, rep),
         "C11" => c11::run(ctx, rep),
